@@ -5,6 +5,7 @@ CONSTANTS
   CellVals <- McCells
   NameVals <- McNames
   Seps <- McSeps
-INVARIANTS Shape RoundTripInv ReadBack
+CONSTRAINT Bounded
+INVARIANTS Shape RoundTripInv ReadBackInv QueriesPure
 PROPERTY RaiseKeeps
 CHECK_DEADLOCK FALSE
